@@ -1738,3 +1738,91 @@ func ruleS12(r *Run) {
 	}
 	r.Check(noFollow || cmpPos > doPos && (bodyUse == 0 || cmpPos < bodyUse), key, fd.Pos(), "resp.Request.Method compared after Do and before the body is read", "the response of http.Client.Do is taken for the answer to the call without looking at resp.Request: when the server (a ServeMux redirecting /rpc to /rpc/) answers 301, 302 or 303, net/http re-issues the call as a GET without the request bytes, the service is handed an empty request and the caller receives the function list as its result, with no error")
 }
+
+// ---------------------------------------------------------------------------------------------------
+// P16 an error frame is the answer to one request
+
+func init() {
+	register("P16", "in every multiplexing client transport (rpc/socket, rpc/websocket, rpc/udp conn.receive) the branch that handles a frame with the error flag takes the pending call the frame answers out of the table (loadAndDelete of the frame's index) and sends the error to that call's channel, and the error it then reports for the connection is not that call's error any more: otherwise the error text of one call (an unserializable result, one oversized request) is delivered to every call pending on the connection, and the UDP client closes its socket for a fault that concerned one datagram", 3, ruleP16)
+}
+
+func ruleP16(r *Run) {
+	p := r.P
+	for _, tr := range []string{"rpc/socket", "rpc/websocket", "rpc/udp"} {
+		fd, pkg := p.DeclOf(tr, "conn.receive")
+		key := "error frame delivered to its own call in " + tr + ".conn.receive"
+		if fd == nil {
+			r.Undec(key, 0, "not found")
+			continue
+		}
+		info := pkg.TypesInfo
+		parents := parentMap(fd.Body)
+		// the flag: second/third result of parseHeader
+		var okObj types.Object
+		ast.Inspect(fd.Body, func(m ast.Node) bool {
+			if as, ok := m.(*ast.AssignStmt); ok && len(as.Rhs) == 1 {
+				if c, ok := ast.Unparen(as.Rhs[0]).(*ast.CallExpr); ok {
+					if f := Callee(info, c); f != nil && refName(f.Name()) == "parseHeader" {
+						okObj = identObj(info, as.Lhs[len(as.Lhs)-1])
+					}
+				}
+			}
+			return true
+		})
+		if okObj == nil {
+			r.Undec(key, fd.Pos(), "the flag returned by parseHeader was not found")
+			continue
+		}
+		delivered, reassigned := false, false
+		var errObj types.Object
+		if fd.Type.Results != nil {
+			for _, f := range fd.Type.Results.List {
+				for _, id := range f.Names {
+					errObj = info.Defs[id]
+				}
+			}
+		}
+		ast.Inspect(fd.Body, func(m ast.Node) bool {
+			send, ok := m.(*ast.SendStmt)
+			if !ok {
+				return true
+			}
+			// under !ok ?
+			inErr := false
+			for _, fc := range factsWithSwitch(parents, send) {
+				if id, ok := ast.Unparen(fc.e).(*ast.Ident); ok && info.Uses[id] == okObj && fc.neg {
+					inErr = true
+				}
+			}
+			if !inErr {
+				return true
+			}
+			// the channel came from loadAndDelete
+			if o := identObj(info, send.Chan); o != nil {
+				ast.Inspect(fd.Body, func(k ast.Node) bool {
+					if as, ok := k.(*ast.AssignStmt); ok && len(as.Rhs) == 1 {
+						if c, ok := ast.Unparen(as.Rhs[0]).(*ast.CallExpr); ok && refName(methodName(c)) == "loadAndDelete" && identObj(info, as.Lhs[0]) == o {
+							delivered = true
+						}
+					}
+					return true
+				})
+			}
+			// afterwards the connection-level error is something else (or nothing)
+			if blk, ok := parents[send].(*ast.BlockStmt); ok {
+				after := false
+				for _, st := range blk.List {
+					if st == ast.Stmt(send) {
+						after = true
+						continue
+					}
+					if as, ok := st.(*ast.AssignStmt); ok && after && len(as.Lhs) == 1 && errObj != nil && identObj(info, as.Lhs[0]) == errObj {
+						reassigned = true
+					}
+				}
+			}
+			return true
+		})
+		r.Check(delivered && reassigned, key, fd.Pos(), "loadAndDelete(index) <- error; then another error (or none) for the connection", "the branch for a frame with the error flag only sets the error of the receive loop: the connection is closed with it and EVERY pending call fails with the error text of the one call the frame answers (a concurrent slow(42) fails with `unsupported type: chan int` of another call; over UDP the client socket is closed for one refused datagram)")
+	}
+}
